@@ -73,9 +73,9 @@ class SimulationAlgorithm3DBase
             case 5 : zn-=1; break;
             };
 
-        if (boundary_conditions[0] == 1) xn = (w+xn)%w;
-        if (boundary_conditions[1] == 1) yn = (h+yn)%h;
-        if (boundary_conditions[2] == 1) zn = (d+zn)%d;
+        if (boundary_conditions[0] == 1 && w>1) xn = (w+xn)%w;
+        if (boundary_conditions[1] == 1 && h>1) yn = (h+yn)%h;
+        if (boundary_conditions[2] == 1 && d>1) zn = (d+zn)%d;
 
         if (xn>=0 && xn<w &&
             yn>=0 && yn<h &&
